@@ -39,9 +39,9 @@ struct St
 
 enum { F_SHORT = 0, F_FLIP, F_DROP, F_DUP, F_NUL, F_OPEN, F_TRUNC };
 const char *fault_names[] = {"short_read", "flipped_byte", "dropped_byte", "duplicated_byte", "nul_byte", "open_failure", "file_truncated", nullptr};
-enum { P_DOC = 0, P_RTERR, P_TREE_EQUAL, P_TRUNC_IN_STRING, P_TRUNC_IN_COMMENT, P_RAW_ACCEPTED, P_DEPTH_GE4, P_SHORT_READ_HIT, P_TRUNC_AFTER_BACKSLASH, P_PRE_GE8 };
+enum { P_DOC = 0, P_RTERR, P_TREE_EQUAL, P_TRUNC_IN_STRING, P_TRUNC_IN_COMMENT, P_RAW_ACCEPTED, P_DEPTH_GE4, P_SHORT_READ_HIT, P_TRUNC_AFTER_BACKSLASH, P_PRE_GE8, P_BIG_FILE };
 const char *probe_names[] = {"returned_document", "threw_runtime_error", "tree_compared_equal", "truncated_inside_quoted_string",
-                             "truncated_inside_comment", "raw_bytes_accepted_as_document", "tree_depth_ge_4", "short_read_refused_bytes", "cut_right_after_a_backslash", "eight_or_more_rejected_reads_before_the_document", nullptr};
+                             "truncated_inside_comment", "raw_bytes_accepted_as_document", "tree_depth_ge_4", "short_read_refused_bytes", "cut_right_after_a_backslash", "eight_or_more_rejected_reads_before_the_document", "file_of_64KiB_or_more", nullptr};
 
 const char IDCH1[] = "abcXYZ_";
 const char IDCH[] = "abcxyzABC019_.";
@@ -234,6 +234,14 @@ void do_plan(int tier)
     }
     if (sim_plan(5) == 0)
       text += gen_comment() + gen_ws(false);
+  }
+  if (st->mode != 2 && sim_plan(16) == 0) {
+    // a large file whose size is a whole number of pages (or just off it): padded with white space
+    static const size_t sizes[] = {65536, 65536 + 4096, 131072, 65536 + 37};
+    size_t want = sizes[sim_plan(4)];
+    while (text.size() < want)
+      text += text.size() % 61 == 0 ? '\n' : ' ';
+    sim_probe(P_BIG_FILE);
   }
   st->original.assign(text.begin(), text.end());
   st->bytes = st->original;
